@@ -1,7 +1,1052 @@
-//! drivers for this area (see lib/README_FRAMEWORK.md)
-use crate::util::Args;
+//! Drivers for property C18 (oxidd-parser): `circuit-enum`, `circuit-random`,
+//! `parse-mutate`.
+//!
+//! The drivers call `Circuit::simplify` / `Problem::simplify` and the
+//! DIMACS / AIGER / NNF parsers, observe the outcome through the public API
+//! and log it; every judgement is made by TLC (`spec/TraceCircuit.tla`).
+//! A panic of the code under test is data (`"res":{"panic":..}`).
 
-pub fn run(driver: &str, _args: &Args) {
-    eprintln!("driver {driver} not implemented yet");
-    std::process::exit(2);
+use std::collections::HashSet;
+use std::hash::{Hash, Hasher};
+
+use nom::error::VerboseError;
+use oxidd_parser::{
+    Circuit, GateKind, Literal, ParseOptions, ParseOptionsBuilder, Problem, ProblemDetails, VarSet,
+};
+
+use crate::util::{catch, json, write_summary, Args, Rng, TraceOut, Value};
+
+// ---------------------------------------------------------------------------
+// test input description (harness side) and projection of library values
+
+/// literal of a circuit to be built
+#[derive(Clone, Copy, PartialEq, Eq, Debug)]
+enum L {
+    F,
+    T,
+    In(usize, bool),
+    Undef(bool),
+    G(usize, bool),
+}
+
+impl L {
+    fn lit(self) -> Literal {
+        match self {
+            L::F => Literal::FALSE,
+            L::T => Literal::TRUE,
+            L::In(i, neg) => Literal::from_input(neg, i),
+            L::Undef(false) => Literal::UNDEF,
+            L::Undef(true) => !Literal::UNDEF,
+            L::G(j, neg) => Literal::from_gate(neg, j),
+        }
+    }
+}
+
+#[derive(Clone, Debug)]
+struct CSpec {
+    n: usize,
+    gates: Vec<(u8, Vec<L>)>, // kind 0 and, 1 or, 2 xor
+    roots: Vec<L>,
+}
+
+fn kind_of(k: u8) -> GateKind {
+    match k {
+        0 => GateKind::And,
+        1 => GateKind::Or,
+        _ => GateKind::Xor,
+    }
+}
+
+fn build(spec: &CSpec) -> Circuit {
+    let mut c = Circuit::new(VarSet::new(spec.n));
+    for (k, ins) in &spec.gates {
+        c.push_gate(kind_of(*k));
+        c.push_gate_inputs(ins.iter().map(|l| l.lit()));
+    }
+    c
+}
+
+const CLAMP: usize = 999_999_999; // TLC integers are 32 bit
+
+/// projection of a library literal: [t, i, s] (see spec/Circuit.tla)
+fn lit_json(l: Literal) -> Value {
+    let s = l.is_negative() as u8;
+    if let Some(g) = l.get_gate_no() {
+        json!([2, g.min(CLAMP), s])
+    } else if let Some(i) = l.get_input() {
+        if i > Literal::MAX_INPUT {
+            json!([3, 0, s])
+        } else {
+            json!([1, i.min(CLAMP), s])
+        }
+    } else {
+        json!([0, 0, s])
+    }
+}
+
+fn lits_json(ls: &[Literal]) -> Value {
+    Value::Array(ls.iter().map(|&l| lit_json(l)).collect())
+}
+
+fn circuit_json(c: &Circuit) -> Value {
+    let gates: Vec<Value> = c
+        .iter_gates()
+        .map(|g| {
+            let k = match g.kind {
+                GateKind::And => "and",
+                GateKind::Or => "or",
+                GateKind::Xor => "xor",
+            };
+            json!({"k": k, "ins": lits_json(g.inputs)})
+        })
+        .collect();
+    json!({"n": c.inputs().len().min(CLAMP), "gates": gates})
+}
+
+fn hash_str(s: &str) -> u64 {
+    let mut h = std::collections::hash_map::DefaultHasher::new();
+    s.hash(&mut h);
+    h.finish()
+}
+
+// ---------------------------------------------------------------------------
+// simplify
+
+struct SimpStats {
+    cases: u64,
+    ok: u64,
+    err: u64,
+    panic: u64,
+    nontrivial: HashSet<u64>,
+    in_history: usize,
+    /// `kind` and `tag` of the reset events (part of a finding's signature)
+    kind: &'static str,
+    tag: &'static str,
+}
+
+impl SimpStats {
+    fn new(kind: &'static str, tag: &'static str) -> Self {
+        SimpStats { cases: 0, ok: 0, err: 0, panic: 0, nontrivial: HashSet::new(), in_history: 0, kind, tag }
+    }
+}
+
+const HISTORY_EVENTS: usize = 32;
+
+fn next_event(out: &mut TraceOut, st: &mut SimpStats) {
+    if st.in_history == 0 || st.in_history >= HISTORY_EVENTS {
+        out.begin_history();
+        out.emit(json!({"ev":"reset","kind":st.kind,"tag":st.tag}));
+        st.in_history = 0;
+    }
+    st.in_history += 1;
+}
+
+/// call `simplify` on an already built circuit / problem and log the event
+fn log_simplify(
+    out: &mut TraceOut,
+    st: &mut SimpStats,
+    tag: &str,
+    via: &str,
+    circuit: &Circuit,
+    roots: &[Literal],
+    call: impl FnOnce() -> Result<(Circuit, Vec<Literal>, Vec<Literal>), Literal>,
+) {
+    next_event(out, st);
+    let cj = circuit_json(circuit);
+    let rj = lits_json(roots);
+    let r = catch(call);
+    st.cases += 1;
+    let identity = |nc: &Circuit, map: &[Literal]| {
+        circuit_json(nc) == cj
+            && map.iter().enumerate().all(|(i, &l)| l == Literal::from_gate(false, i))
+    };
+    let (res, nontrivial) = match r {
+        Err(msg) => {
+            st.panic += 1;
+            (json!({"panic": msg}), true)
+        }
+        Ok(Err(l)) => {
+            st.err += 1;
+            (json!({"err": lit_json(l)}), true)
+        }
+        Ok(Ok((nc, map, nroots))) => {
+            st.ok += 1;
+            let nt = !identity(&nc, &map);
+            (
+                json!({"ok": {"c": circuit_json(&nc), "map": lits_json(&map), "roots": lits_json(&nroots)}}),
+                nt,
+            )
+        }
+    };
+    if nontrivial {
+        st.nontrivial.insert(hash_str(&format!("{cj}|{rj}")));
+    }
+    out.emit(json!({"ev":"simplify","cls":tag,"via":via,"c":cj,"roots":rj,"res":res}));
+}
+
+fn run_simplify(out: &mut TraceOut, st: &mut SimpStats, tag: &str, spec: &CSpec) {
+    let circuit = build(spec);
+    let roots: Vec<Literal> = spec.roots.iter().map(|l| l.lit()).collect();
+    let c2 = &circuit;
+    let r2 = roots.clone();
+    log_simplify(out, st, tag, "circuit", &circuit, &roots, move || {
+        let (nc, map) = c2.simplify(r2.iter().copied())?;
+        let nroots = r2.iter().map(|l| l.apply_gate_map(&map)).collect();
+        Ok((nc, map, nroots))
+    });
+}
+
+/// root literals of a problem that the public API gives access to; None if
+/// the problem has roots that cannot be observed (bad / invariant / justice
+/// / fairness literals of an AIGER problem have no accessor)
+fn problem_roots(p: &Problem, hidden_roots: bool) -> Option<Vec<Literal>> {
+    match &p.details {
+        ProblemDetails::Root(l) => Some(vec![*l]),
+        ProblemDetails::AIGER(a) => {
+            if hidden_roots {
+                None
+            } else {
+                Some(a.latches().iter().chain(a.outputs().iter()).copied().collect())
+            }
+        }
+    }
+}
+
+fn run_problem_simplify(out: &mut TraceOut, st: &mut SimpStats, tag: &str, p: &Problem, hidden_roots: bool) {
+    if p.circuit.num_gates() > 40 || p.circuit.inputs().len() > 7 {
+        return;
+    }
+    let Some(roots) = problem_roots(p, hidden_roots) else { return };
+    log_simplify(out, st, tag, "problem", &p.circuit, &roots, || {
+        let (np, map) = p.simplify()?;
+        let nroots = problem_roots(&np, false).unwrap();
+        Ok((np.circuit, map, nroots))
+    });
+}
+
+/// literal alphabet of a circuit with `n` inputs and `g` gates; `unknown`
+/// lists the unknown input numbers to include (None = Literal::UNDEF)
+fn alphabet(n: usize, g: usize, unknown: &[Option<usize>]) -> Vec<L> {
+    let mut a = vec![L::F, L::T];
+    for i in 0..n {
+        a.push(L::In(i, false));
+        a.push(L::In(i, true));
+    }
+    for u in unknown {
+        match u {
+            Some(i) => {
+                a.push(L::In(*i, false));
+                a.push(L::In(*i, true));
+            }
+            None => {
+                a.push(L::Undef(false));
+                a.push(L::Undef(true));
+            }
+        }
+    }
+    for j in 0..g {
+        a.push(L::G(j, false));
+        a.push(L::G(j, true));
+    }
+    a
+}
+
+/// number of gates (kind, literal sequence of length 0..=maxlen) over an alphabet of size a
+fn gate_space(a: u64, maxlen: u32) -> u64 {
+    3 * (0..=maxlen).map(|k| a.pow(k)).sum::<u64>()
+}
+
+fn decode_gate(mut idx: u64, alpha: &[L], maxlen: u32) -> (u8, Vec<L>) {
+    let kind = (idx % 3) as u8;
+    idx /= 3;
+    let a = alpha.len() as u64;
+    let mut len = 0u32;
+    while len <= maxlen && idx >= a.pow(len) {
+        idx -= a.pow(len);
+        len += 1;
+    }
+    let mut ins = Vec::with_capacity(len as usize);
+    for _ in 0..len {
+        ins.push(alpha[(idx % a) as usize]);
+        idx /= a;
+    }
+    (kind, ins)
+}
+
+fn keep(seed: u64, class: u64, idx: u64, stride: u64) -> bool {
+    if stride <= 1 {
+        return true;
+    }
+    let mut r = Rng::new(seed ^ class.wrapping_mul(0xA24BAED4963EE407) ^ idx.wrapping_mul(0x9FB21C651E98DF25));
+    r.next() % stride == 0
+}
+
+fn circuit_enum(args: &Args) {
+    let dir = args.get("out", "out/circuit-enum");
+    let seed = args.num("seed", 1);
+    let thorough = args.get("tier", "quick") == "thorough";
+    let stride_e2 = args.num("stride-e2", if thorough { 1 } else { 48 });
+    let stride_g1 = args.num("stride-g1", if thorough { 1 } else { 6 });
+    let count_s3 = args.num("count-s3", if thorough { 1_000_000 } else { 12_000 });
+    let mut out = TraceOut::new(&dir, "cenum", args.num("chunk", 4000) as usize);
+    let mut st = SimpStats::new("circuit", "enum");
+    let mut exhaustive_classes = Vec::new();
+
+    // class e2: all circuits with <= 2 inputs, <= 2 gates, <= 2 literals per
+    // gate; literals: constants, inputs, the first unknown input (number
+    // exactly `n`), gates (self references and mutual references included)
+    for n in 0..=2usize {
+        for g in 1..=2usize {
+            let alpha = alphabet(n, g, &[Some(n)]);
+            let per_gate = gate_space(alpha.len() as u64, 2);
+            let total = per_gate.pow(g as u32);
+            let root_sets: Vec<Vec<L>> = if g == 1 {
+                vec![vec![L::G(0, false)], vec![L::G(0, true)]]
+            } else {
+                vec![vec![L::G(0, false)], vec![L::G(1, false)], vec![L::G(0, false), L::G(1, true)]]
+            };
+            let class = (n * 10 + g) as u64;
+            for idx in 0..total {
+                if !keep(seed, class, idx, stride_e2) {
+                    continue;
+                }
+                let mut gates = Vec::new();
+                let mut rest = idx;
+                for _ in 0..g {
+                    gates.push(decode_gate(rest % per_gate, &alpha, 2));
+                    rest /= per_gate;
+                }
+                for roots in &root_sets {
+                    run_simplify(&mut out, &mut st, "enum2", &CSpec { n, gates: gates.clone(), roots: roots.clone() });
+                }
+            }
+            exhaustive_classes.push(json!({"class":"enum2","n":n,"g":g,"circuits":total,"stride":stride_e2}));
+        }
+    }
+
+    // class g1: one gate with <= 3 literals over <= 3 inputs, wide alphabet of
+    // unknown inputs: n, n+1, 2n+g, 2n+g+1 and Literal::UNDEF
+    for n in 0..=3usize {
+        let g = 1usize;
+        let mut unk: Vec<Option<usize>> = Vec::new();
+        for u in [n, n + 1, 2 * n + g, 2 * n + g + 1] {
+            if !unk.contains(&Some(u)) {
+                unk.push(Some(u));
+            }
+        }
+        unk.push(None);
+        let alpha = alphabet(n, g, &unk);
+        let total = gate_space(alpha.len() as u64, 3);
+        for idx in 0..total {
+            if !keep(seed, 100 + n as u64, idx, stride_g1) {
+                continue;
+            }
+            let gate = decode_gate(idx, &alpha, 3);
+            run_simplify(&mut out, &mut st, "gate1", &CSpec { n, gates: vec![gate], roots: vec![L::G(0, false)] });
+        }
+        exhaustive_classes.push(json!({"class":"gate1","n":n,"g":1,"circuits":total,"stride":stride_g1}));
+    }
+
+    // class s3: seeded sample of the circuits with <= 3 inputs, 2..3 gates,
+    // <= 3 literals per gate, one root (gate 0)
+    let mut rng = Rng::new(seed.wrapping_mul(7919) + 3);
+    for _ in 0..count_s3 {
+        let n = rng.below(4);
+        let g = if rng.chance(1, 4) { 2 } else { 3 };
+        let with_unknown = rng.chance(1, 5);
+        let dag = rng.chance(1, 2);
+        let unk: Vec<Option<usize>> = if with_unknown { vec![Some(n), Some(2 * n + g + 1), None] } else { vec![] };
+        let base = alphabet(n, 0, &unk);
+        let mut gates = Vec::new();
+        for j in 0..g {
+            let mut alpha = base.clone();
+            for k in 0..g {
+                if !dag || k > j {
+                    alpha.push(L::G(k, false));
+                    alpha.push(L::G(k, true));
+                }
+            }
+            let len = rng.below(4);
+            let ins = (0..len).map(|_| alpha[rng.below(alpha.len())]).collect();
+            gates.push((rng.below(3) as u8, ins));
+        }
+        run_simplify(&mut out, &mut st, "sample3", &CSpec { n, gates, roots: vec![L::G(0, false)] });
+    }
+
+    out.finish();
+    write_summary(
+        &dir,
+        "circuit-enum",
+        &out,
+        json!({"rows": st.cases, "nontrivial": st.nontrivial.len(), "ok": st.ok, "err": st.err, "panic": st.panic,
+               "classes": exhaustive_classes, "sample3": count_s3}),
+    );
+}
+
+fn random_spec(rng: &mut Rng) -> CSpec {
+    let n = 1 + rng.below(5);
+    let g = 1 + rng.below(8);
+    let with_unknown = rng.chance(1, 10);
+    let dag = !rng.chance(3, 20);
+    let perm = rng.perm(g); // position -> gate number: the circuit is not stored in topological order
+    let mut gates: Vec<(u8, Vec<L>)> = vec![(0, vec![]); g];
+    for pos in 0..g {
+        let len = match rng.below(10) {
+            0 => 0,
+            1 => 1,
+            2..=5 => 2,
+            6..=8 => 3,
+            _ => 4 + rng.below(2),
+        };
+        let mut ins = Vec::new();
+        for _ in 0..len {
+            let neg = rng.chance(1, 2);
+            let r = rng.below(100);
+            let l = if r < 6 {
+                if neg { L::T } else { L::F }
+            } else if r < 50 || (dag && pos + 1 == g) {
+                if with_unknown && rng.chance(1, 6) {
+                    if rng.chance(1, 4) { L::Undef(neg) } else { L::In(n + rng.below(2 * n + g + 3), neg) }
+                } else {
+                    L::In(rng.below(n), neg)
+                }
+            } else if dag {
+                L::G(perm[pos + 1 + rng.below(g - pos - 1)] as usize, neg)
+            } else {
+                L::G(rng.below(g), neg)
+            };
+            ins.push(l);
+        }
+        gates[perm[pos] as usize] = (rng.below(3) as u8, ins);
+    }
+    let mut roots = vec![L::G(perm[0] as usize, rng.chance(1, 2))];
+    for _ in 0..rng.below(3) {
+        let neg = rng.chance(1, 2);
+        roots.push(match rng.below(10) {
+            0 => L::In(rng.below(n), neg),
+            1 => if neg { L::T } else { L::F },
+            _ => L::G(rng.below(g), neg),
+        });
+    }
+    CSpec { n, gates, roots }
+}
+
+fn circuit_random(args: &Args) {
+    let dir = args.get("out", "out/circuit-random");
+    let seed = args.num("seed", 1);
+    let thorough = args.get("tier", "quick") == "thorough";
+    let count = args.num("count", if thorough { 150_000 } else { 6_000 });
+    let mut out = TraceOut::new(&dir, "crand", args.num("chunk", 2500) as usize);
+    let mut st = SimpStats::new("circuit", "random");
+    let mut rng = Rng::new(seed.wrapping_mul(104729) + 11);
+    for _ in 0..count {
+        let spec = random_spec(&mut rng);
+        run_simplify(&mut out, &mut st, "random", &spec);
+    }
+    out.finish();
+    write_summary(
+        &dir,
+        "circuit-random",
+        &out,
+        json!({"rows": st.cases, "nontrivial": st.nontrivial.len(), "ok": st.ok, "err": st.err, "panic": st.panic}),
+    );
+}
+
+// ---------------------------------------------------------------------------
+// parsers
+
+#[derive(Clone, Copy, PartialEq, Eq)]
+enum Fmt {
+    Dimacs,
+    Aiger,
+    Nnf,
+}
+
+impl Fmt {
+    fn name(self) -> &'static str {
+        match self {
+            Fmt::Dimacs => "dimacs",
+            Fmt::Aiger => "aiger",
+            Fmt::Nnf => "nnf",
+        }
+    }
+    fn ext(self, bytes: &[u8]) -> &'static str {
+        match self {
+            Fmt::Dimacs => "cnf",
+            Fmt::Aiger => if bytes.starts_with(b"aig") { "aig" } else { "aag" },
+            Fmt::Nnf => "nnf",
+        }
+    }
+}
+
+/// option sets: bit 0 = var_order + clause_tree, bit 1 = no acyclicity check
+fn options(set: u8) -> ParseOptions {
+    ParseOptionsBuilder::default()
+        .var_order(set & 1 != 0)
+        .clause_tree(set & 1 != 0)
+        .check_acyclic(set & 2 == 0)
+        .build()
+        .unwrap()
+}
+
+struct Seed {
+    fmt: Fmt,
+    name: String,
+    bytes: Vec<u8>,
+    /// option sets under which the input is a member of the format
+    valid_with: Vec<u8>,
+    /// AIGER: has bad / invariant / justice / fairness literals
+    hidden_roots: bool,
+}
+
+fn err_class<E>(e: &nom::Err<E>) -> &'static str {
+    match e {
+        nom::Err::Error(_) => "error",
+        nom::Err::Failure(_) => "failure",
+        nom::Err::Incomplete(_) => "incomplete",
+    }
+}
+
+fn sanitize(s: String) -> String {
+    s.chars()
+        .map(|c| match c {
+            '⊥' => 'F',
+            '⊤' => 'T',
+            c if c.is_ascii() && !c.is_ascii_control() => c,
+            _ => '?',
+        })
+        .collect()
+}
+
+/// projection of a problem through the public API
+fn problem_json(p: &Problem, with_dbg: bool) -> Value {
+    let names: Vec<Value> = (0..p.circuit.inputs().len().min(16))
+        .map(|v| json!(p.circuit.inputs().name(v).unwrap_or("")))
+        .collect();
+    let order = match p.circuit.inputs().order() {
+        Some(o) => json!(o.iter().take(64).collect::<Vec<_>>()),
+        None => json!([]),
+    };
+    let (roots, det) = match &p.details {
+        ProblemDetails::Root(l) => (vec![*l], json!({"t":"root"})),
+        ProblemDetails::AIGER(a) => {
+            let roots: Vec<Literal> = a.latches().iter().chain(a.outputs().iter()).copied().collect();
+            let init: Vec<i32> = (0..a.latches().len())
+                .map(|i| match a.latch_init_value(i) {
+                    Some(false) => 0,
+                    Some(true) => 1,
+                    None => 2,
+                })
+                .collect();
+            let onames: Vec<Value> = (0..a.outputs().len()).map(|i| json!(a.output_name(i).unwrap_or(""))).collect();
+            (
+                roots,
+                json!({"t":"aiger","inputs":a.inputs().min(CLAMP),"latches":a.latches().len(),"init":init,
+                       "outputs":a.outputs().len(),"onames":onames}),
+            )
+        }
+    };
+    let mut v = json!({"c": circuit_json(&p.circuit), "roots": lits_json(&roots), "det": det,
+                       "names": names, "order": order});
+    if with_dbg {
+        v["dbg"] = json!(sanitize(format!("{p:?}")));
+    }
+    v
+}
+
+const BIG_GATES: usize = 48;
+
+/// one call of a parser; the result value and (if accepted) the problem
+fn parse_call(fmt: Fmt, set: u8, bytes: &[u8], with_dbg: bool) -> (Value, Option<Problem>) {
+    let opts = options(set);
+    let r = catch(|| {
+        type E<'a> = VerboseError<&'a [u8]>;
+        let r = match fmt {
+            Fmt::Dimacs => oxidd_parser::dimacs::parse::<E>(&opts)(bytes),
+            Fmt::Aiger => oxidd_parser::aiger::parse::<E>(&opts)(bytes),
+            Fmt::Nnf => oxidd_parser::nnf::parse::<E>(&opts)(bytes),
+        };
+        match r {
+            Ok((rest, p)) => Ok((rest.len(), p)),
+            Err(e) => Err((err_class(&e), match &e {
+                nom::Err::Error(v) | nom::Err::Failure(v) => v.errors.len(),
+                _ => 0,
+            })),
+        }
+    });
+    match r {
+        Err(msg) => (json!({"panic": msg}), None),
+        Ok(Err((class, ctxs))) => (json!({"err": class, "ctx": ctxs}), None),
+        Ok(Ok((rest, p))) => {
+            let big = p.circuit.num_gates() > BIG_GATES
+                || p.circuit.inputs().len() > 64
+                || p.circuit.iter_gates().any(|g| g.inputs.len() > 64);
+            let v = if big {
+                json!({"ok": {"big": [p.circuit.inputs().len().min(CLAMP), p.circuit.num_gates().min(CLAMP)], "rest": rest}})
+            } else {
+                // the projection itself runs library code (accessors, Debug)
+                match catch(|| problem_json(&p, with_dbg)) {
+                    Ok(pj) => json!({"ok": {"p": pj, "rest": rest}}),
+                    Err(msg) => json!({"panic": format!("projection: {msg}")}),
+                }
+            };
+            (v, Some(p))
+        }
+    }
+}
+
+fn hex(bytes: &[u8]) -> String {
+    let mut s = String::with_capacity(bytes.len() * 2);
+    for b in bytes {
+        s.push_str(&format!("{b:02x}"));
+    }
+    s
+}
+
+struct ParseStats {
+    cases: u64,
+    ok: u64,
+    err: u64,
+    panic: u64,
+    distinct: HashSet<u64>,
+}
+
+#[allow(clippy::too_many_arguments)]
+fn log_parse(
+    out: &mut TraceOut,
+    st: &mut SimpStats,
+    ps: &mut ParseStats,
+    fmt: Fmt,
+    set: u8,
+    cls: &str,
+    name: &str,
+    bytes: &[u8],
+    hidden_roots: bool,
+    tmpdir: Option<&str>,
+) {
+    let mut hs = std::collections::hash_map::DefaultHasher::new();
+    (fmt.name(), set, bytes).hash(&mut hs);
+    if !ps.distinct.insert(hs.finish()) && cls != "valid" {
+        return; // the same bytes were already tried with these options
+    }
+    next_event(out, st);
+    let (res, problem) = parse_call(fmt, set, bytes, false);
+    ps.cases += 1;
+    if res.get("panic").is_some() {
+        ps.panic += 1;
+    } else if res.get("err").is_some() {
+        ps.err += 1;
+    } else {
+        ps.ok += 1;
+    }
+    let mut ev = json!({"ev":"parse","fmt":fmt.name(),"api":"parse","cls":cls,"seed":name,"set":set,
+                        "ac": if set & 2 == 0 { 1 } else { 0 }, "len": bytes.len(), "res": res});
+    if bytes.len() <= 400 {
+        ev["hex"] = json!(hex(bytes));
+    }
+    out.emit(ev);
+    if let Some(p) = &problem {
+        // accepted inputs feed Problem::simplify
+        run_problem_simplify(out, st, "parsed", p, hidden_roots);
+    }
+    if let Some(tmp) = tmpdir {
+        // the convenience API renders the diagnostic (span arithmetic, codespan)
+        let path = format!("{tmp}/input.{}", fmt.ext(bytes));
+        std::fs::write(&path, bytes).expect("harness: cannot write temporary input");
+        let opts = options(set);
+        let r = catch(|| oxidd_parser::load_file(&path, &opts).is_some());
+        let res = match r {
+            Err(msg) => json!({"panic": msg}),
+            Ok(true) => json!({"ok": {}}),
+            Ok(false) => json!({"err": "diagnostic"}),
+        };
+        next_event(out, st);
+        let mut ev = json!({"ev":"parse","fmt":fmt.name(),"api":"load_file","cls":cls,"seed":name,"set":set,
+                            "ac": if set & 2 == 0 { 1 } else { 0 }, "len": bytes.len(), "res": res});
+        if bytes.len() <= 400 {
+            ev["hex"] = json!(hex(bytes));
+        }
+        out.emit(ev);
+    }
+}
+
+// ---- and-inverter graphs generated by the harness (test input generation) --
+
+struct Aig {
+    i: usize,
+    l: usize,
+    /// (next, init): init 0, 1, 2 = the latch literal itself (uninitialised), 3 = omitted
+    latches: Vec<(usize, u8)>,
+    outputs: Vec<usize>,
+    bad: Vec<usize>,
+    constraints: Vec<usize>,
+    justice: Vec<Vec<usize>>,
+    fairness: Vec<usize>,
+    ands: Vec<(usize, usize)>, // rhs0 >= rhs1, rhs0 < lhs
+    symbols: Vec<String>,
+    comment: Option<String>,
+}
+
+fn random_aig(rng: &mut Rng) -> Aig {
+    let i = rng.below(4);
+    let l = rng.below(3);
+    let a = rng.below(7);
+    let first_and = i + l + 1;
+    let maxlit = 2 * (i + l + a + 1); // exclusive
+    let mut ands = Vec::new();
+    for k in 0..a {
+        let lhs = 2 * (first_and + k);
+        let r0 = rng.below(lhs);
+        let r1 = rng.below(r0 + 1);
+        ands.push((r0, r1));
+    }
+    let lit = |rng: &mut Rng| rng.below(maxlit);
+    let latches = (0..l).map(|_| (lit(rng), rng.below(4) as u8)).collect();
+    let outputs = (0..rng.below(4)).map(|_| lit(rng)).collect();
+    let ext = rng.chance(1, 3);
+    let bad: Vec<usize> = if ext { (0..rng.below(3)).map(|_| lit(rng)).collect() } else { vec![] };
+    let constraints: Vec<usize> = if ext { (0..rng.below(2)).map(|_| lit(rng)).collect() } else { vec![] };
+    let justice: Vec<Vec<usize>> = if ext {
+        (0..rng.below(3)).map(|_| (0..1 + rng.below(2)).map(|_| lit(rng)).collect()).collect()
+    } else {
+        vec![]
+    };
+    let fairness: Vec<usize> = if ext { (0..rng.below(2)).map(|_| lit(rng)).collect() } else { vec![] };
+    let mut symbols = Vec::new();
+    if rng.chance(1, 2) {
+        for k in 0..i {
+            if rng.chance(1, 2) {
+                symbols.push(format!("i{k} in{k}"));
+            }
+        }
+        for k in 0..l {
+            if rng.chance(1, 2) {
+                symbols.push(format!("l{k} latch {k}"));
+            }
+        }
+    }
+    let comment = if rng.chance(1, 3) { Some("generated\nby the harness".to_string()) } else { None };
+    let mut g = Aig { i, l, latches, outputs, bad, constraints, justice, fairness, ands, symbols, comment };
+    if rng.chance(1, 2) {
+        for k in 0..g.outputs.len() {
+            if rng.chance(1, 2) {
+                g.symbols.push(format!("o{k} out{k}"));
+            }
+        }
+        for k in 0..g.bad.len() {
+            g.symbols.push(format!("b{k} bad{k}"));
+        }
+        for k in 0..g.constraints.len() {
+            g.symbols.push(format!("c{k} inv{k}"));
+        }
+        for k in 0..g.justice.len() {
+            g.symbols.push(format!("j{k} just{k}"));
+        }
+        for k in 0..g.fairness.len() {
+            g.symbols.push(format!("f{k} fair{k}"));
+        }
+    }
+    g
+}
+
+impl Aig {
+    fn hidden_roots(&self) -> bool {
+        !(self.bad.is_empty() && self.constraints.is_empty() && self.justice.is_empty() && self.fairness.is_empty())
+    }
+    fn header(&self, tag: &str) -> String {
+        let m = self.i + self.l + self.ands.len();
+        let mut h = format!("{tag} {m} {} {} {} {}", self.i, self.l, self.outputs.len(), self.ands.len());
+        let ext = [self.bad.len(), self.constraints.len(), self.justice.len(), self.fairness.len()];
+        let last = ext.iter().rposition(|&x| x != 0).map_or(0, |p| p + 1);
+        for x in &ext[..last] {
+            h.push_str(&format!(" {x}"));
+        }
+        h.push('\n');
+        h
+    }
+    fn latch_line(&self, k: usize, ascii: bool) -> String {
+        let lit = 2 * (self.i + 1 + k);
+        let (next, init) = self.latches[k];
+        let mut s = if ascii { format!("{lit} {next}") } else { format!("{next}") };
+        match init {
+            0 => s.push_str(" 0"),
+            1 => s.push_str(" 1"),
+            2 => s.push_str(&format!(" {lit}")),
+            _ => {}
+        }
+        s.push('\n');
+        s
+    }
+    fn middle(&self) -> String {
+        let mut s = String::new();
+        for x in self.outputs.iter().chain(&self.bad).chain(&self.constraints) {
+            s.push_str(&format!("{x}\n"));
+        }
+        for j in &self.justice {
+            s.push_str(&format!("{}\n", j.len()));
+        }
+        for j in &self.justice {
+            for x in j {
+                s.push_str(&format!("{x}\n"));
+            }
+        }
+        for x in &self.fairness {
+            s.push_str(&format!("{x}\n"));
+        }
+        s
+    }
+    fn tail(&self) -> String {
+        let mut s = String::new();
+        for sym in &self.symbols {
+            s.push_str(sym);
+            s.push('\n');
+        }
+        if let Some(c) = &self.comment {
+            s.push_str("c\n");
+            s.push_str(c);
+            s.push('\n');
+        }
+        s
+    }
+    fn to_aag(&self) -> Vec<u8> {
+        let mut s = self.header("aag");
+        for k in 0..self.i {
+            s.push_str(&format!("{}\n", 2 * (k + 1)));
+        }
+        for k in 0..self.l {
+            s.push_str(&self.latch_line(k, true));
+        }
+        s.push_str(&self.middle());
+        for (k, (r0, r1)) in self.ands.iter().enumerate() {
+            s.push_str(&format!("{} {r0} {r1}\n", 2 * (self.i + self.l + 1 + k)));
+        }
+        s.push_str(&self.tail());
+        s.into_bytes()
+    }
+    fn to_aig(&self) -> Vec<u8> {
+        let mut s = self.header("aig").into_bytes();
+        for k in 0..self.l {
+            s.extend(self.latch_line(k, false).into_bytes());
+        }
+        s.extend(self.middle().into_bytes());
+        let enc = |mut x: usize, s: &mut Vec<u8>| {
+            while x & !0x7f != 0 {
+                s.push(((x & 0x7f) | 0x80) as u8);
+                x >>= 7;
+            }
+            s.push(x as u8);
+        };
+        for (k, (r0, r1)) in self.ands.iter().enumerate() {
+            let lhs = 2 * (self.i + self.l + 1 + k);
+            enc(lhs - r0, &mut s);
+            enc(r0 - r1, &mut s);
+        }
+        s.extend(self.tail().into_bytes());
+        s
+    }
+}
+
+// ---- seeds ------------------------------------------------------------------
+
+fn seed(fmt: Fmt, name: &str, bytes: &[u8], valid_with: &[u8]) -> Seed {
+    Seed { fmt, name: name.to_string(), bytes: bytes.to_vec(), valid_with: valid_with.to_vec(), hidden_roots: false }
+}
+
+fn fixed_seeds() -> Vec<Seed> {
+    use Fmt::*;
+    let mut v = vec![
+        // ---- DIMACS (unit tests of dimacs.rs and variations)
+        seed(Dimacs, "example_cnf", b"c Example CNF format file\nc\np cnf 4 3\n1 3 -4 0\n4 0 2\n-3", &[0, 2]),
+        seed(Dimacs, "example_cnf_0term", b"c Example CNF format file\nc\np cnf 4 3\n1 3 -4 0\n4 0 2\n-3 0", &[0, 2]),
+        seed(Dimacs, "empty_cnf", b"p cnf 0 0\n", &[0, 1, 2, 3]),
+        seed(Dimacs, "example_sat", b"c Sample SAT format\nc\np sat 4\n(*(+(1 3 -4)\n    +(4)\n    +(2 3)))", &[0, 2]),
+        seed(Dimacs, "xcnf", b"p cnf 3 3\nx1 2 -3 0\n-1 2 0\nx -2 3 0\n", &[0, 1, 2, 3]),
+        seed(Dimacs, "cnf_units_empty", b"p cnf 3 4\n1 0\n-2 0\n1 2 3 0\n0\n", &[0, 1, 2, 3]),
+        seed(Dimacs, "satex", b"p satex 3\n=(xor(1 -2) *(2 3 +()) -(+(1 -3)))\n", &[0, 1, 2, 3]),
+        seed(Dimacs, "satx", b"p satx 2\nxor(1 2 -(*(1 2)))\n", &[0, 1, 2, 3]),
+        seed(Dimacs, "sate", b"p sate 2\n=(1 2 *())\n", &[0, 1, 2, 3]),
+        seed(Dimacs, "cnf_order", b"c 2 b\nc 1 a\nc 3\nc 4 d\np cnf 4 3\n1 3 -4 0\n4 0 2\n-3 0\n", &[0, 1, 2, 3]),
+        seed(Dimacs, "cnf_vo_co", b"c vo [[2, 1], [3, 4]]\nc 1 a\nc co [[0, 1], 2]\np cnf 4 3\n1 3 -4 0\n4 2 0\n-3 1 0\n", &[0, 1, 2, 3]),
+        seed(Dimacs, "sat_vo", b"c vo [1, 2, 3]\np sat 3\n*(1 +(2 -3))\n", &[0, 1, 2, 3]),
+        // ---- NNF (unit test of nnf.rs and variations)
+        seed(Nnf, "c2d_example", b"nnf 15 17 4\nL -3\nL -2\nL 1\nA 3 2 1 0\nL 3\nO 3 2 4 3\nL -4\nA 2 6 5\nL 4\nA 2 2 8\nA 2 1 4\nL 2\nO 2 2 11 10\nA 2 12 9\nO 4 2 13 7\n", &[0, 1, 2, 3]),
+        seed(Nnf, "nnf_ext", b"c comment\nnnf 8 9 3\nL 1\nL -2\nX 2 0 1\nA 0\nO 0 0\nB 3 2 3 4\nL 3\nO 0 3 5 6 2\n", &[0, 2]),
+        seed(Nnf, "nnf_order", b"c 1 x\nc 3 z\nc 2 y\nnnf 4 3 3\nL 1\nL -3\nL 2\nA 3 0 1 2\n", &[0, 1, 2, 3]),
+        seed(Nnf, "nnf_vo", b"c vo [[3, 1], 2]\nnnf 3 2 3\nL 1\nL -3\no 0 2 0 1\n", &[0, 1, 2, 3]),
+        seed(Nnf, "nnf_forward", b"nnf 4 4 2\nA 2 1 2\nL 1\nL 2\nO 0 2 0 1\n", &[0, 1, 2, 3]),
+        // ---- AIGER (unit tests of aiger.rs)
+        seed(Aiger, "aag_empty", b"aag 0 0 0 0 0\n", &[0, 2]),
+        seed(Aiger, "aig_empty", b"aig 0 0 0 0 0\n", &[0, 2]),
+        seed(Aiger, "aag_false", b"aag 0 0 0 1 0\n0\n", &[0, 2]),
+        seed(Aiger, "aig_true", b"aig 0 0 0 1 0\n1\n", &[0, 2]),
+        seed(Aiger, "aag_in_out", b"aag 1 1 0 1 0\n2\n2\n", &[0, 2]),
+        seed(Aiger, "aig_neg", b"aig 1 1 0 1 0\n3\n", &[0, 2]),
+        seed(Aiger, "aag_and", b"aag 3 2 0 1 1\n2\n4\n6\n6 4 2\n", &[0, 2]),
+        seed(Aiger, "aig_and", b"aig 3 2 0 1 1\n6\n\x02\x02", &[0, 2]),
+        seed(Aiger, "aag_or", b"aag 3 2 0 1 1\n2\n4\n7\n6 5 3\n", &[0, 2]),
+        seed(Aiger, "aig_or", b"aig 3 2 0 1 1\n7\n\x01\x02", &[0, 2]),
+        seed(Aiger, "aag_half_adder", b"aag 7 2 0 2 3\n2\n4\n6\n12\n6 13 15\n12 2 4\n14 3 5\ni0 x\ni1 y\no0 s\no1 c\nc\nhalf adder\n", &[0, 2]),
+        seed(Aiger, "aig_half_adder", b"aig 5 2 0 2 3\n10\n6\n\x02\x02\x03\x02\x01\x02i0 x\ni1 y\no0 s\no1 c\nc\nhalf adder\n", &[0, 2]),
+        seed(Aiger, "aag_toggle", b"aag 1 0 1 2 0\n2 3\n2\n3\n", &[0, 2]),
+        seed(Aiger, "aig_toggle", b"aig 1 0 1 2 0\n3\n2\n3\n", &[0, 2]),
+        seed(Aiger, "aag_toggle_reset", b"aag 7 2 1 2 4\n2\n4\n6 8\n6\n7\n8 4 10\n10 13 15\n12 2 6\n14 3 7\ni0 toggle\ni1 ~reset\no0 q\no1 ~q\nl0 q\nc foobar\n", &[0, 2]),
+        seed(Aiger, "aig_toggle_reset", b"aig 7 2 1 2 4\n14\n6\n7\n\x02\x04\x03\x04\x01\x02\x02\x08", &[0, 2]),
+    ];
+    let mut ext = vec![
+        seed(Aiger, "aag_bad_inv", b"aag 5 1 1 0 3 1 1\n2\n4 10 0\n4\n3\n6 5 3\n8 4 2\n10 9 7\n", &[0, 2]),
+        seed(Aiger, "aig_bad_inv", b"aig 5 1 1 0 3 1 1\n10 0\n4\n3\n\x01\x02\x04\x02\x01\x02", &[0, 2]),
+        seed(Aiger, "aag_extra", b"aag 3 2 0 1 1 1 1 2 1\n2\n4\n6\n2\n3\n1\n2\n1\n4\n5\n6\n6 4 2\n", &[0, 2]),
+        seed(Aiger, "aig_extra", b"aig 3 2 0 1 1 1 1 2 1\n6\n2\n3\n1\n2\n1\n4\n5\n6\n\x02\x02", &[0, 2]),
+    ];
+    for s in &mut ext {
+        s.hidden_roots = true;
+    }
+    v.append(&mut ext);
+    v
+}
+
+const ALPHABET: &[u8] = b"0123456789 \n\r\t-+*=()[],xXcpaigloOAaBbLjf\x00\x01\x02\x7f\x80\xff";
+
+fn mutate(rng: &mut Rng, src: &[u8]) -> Vec<u8> {
+    let mut b = src.to_vec();
+    let ops = 1 + rng.below(3);
+    for _ in 0..ops {
+        let byte = if rng.chance(3, 4) { ALPHABET[rng.below(ALPHABET.len())] } else { rng.below(256) as u8 };
+        match rng.below(7) {
+            0 | 1 | 2 if !b.is_empty() => {
+                let p = rng.below(b.len());
+                b[p] = byte;
+            }
+            3 => {
+                let p = rng.below(b.len() + 1);
+                b.insert(p, byte);
+            }
+            4 if !b.is_empty() => {
+                let p = rng.below(b.len());
+                b.remove(p);
+            }
+            5 if b.len() >= 2 => {
+                let p = rng.below(b.len() - 1);
+                b.swap(p, p + 1);
+            }
+            6 if !b.is_empty() => {
+                // duplicate or drop a line
+                let lines: Vec<&[u8]> = b.split_inclusive(|&c| c == b'\n').collect();
+                let k = rng.below(lines.len());
+                let mut nb = Vec::new();
+                let dup = rng.chance(1, 2);
+                for (i, ln) in lines.iter().enumerate() {
+                    if i != k || dup {
+                        nb.extend_from_slice(ln);
+                    }
+                    if i == k && dup {
+                        nb.extend_from_slice(ln);
+                    }
+                }
+                b = nb;
+            }
+            _ => {
+                let p = rng.below(b.len() + 1);
+                b.insert(p, byte);
+            }
+        }
+    }
+    b
+}
+
+fn parse_mutate(args: &Args) {
+    let dir = args.get("out", "out/parse-mutate");
+    let seed_no = args.num("seed", 1);
+    let thorough = args.get("tier", "quick") == "thorough";
+    let muts = args.num("mutations", if thorough { 1500 } else { 60 });
+    let pairs = args.num("pairs", if thorough { 20_000 } else { 1_500 });
+    let gen_muts = args.num("gen-mutations", if thorough { 8 } else { 2 });
+    let load_every = args.num("load-every", if thorough { 8 } else { 10 });
+    let mut out = TraceOut::new(&dir, "parse", args.num("chunk", 2500) as usize);
+    let mut st = SimpStats::new("parse", "mutate");
+    let mut ps = ParseStats { cases: 0, ok: 0, err: 0, panic: 0, distinct: HashSet::new() };
+    let mut rng = Rng::new(seed_no.wrapping_mul(15485863) + 5);
+    let tmp = format!("{dir}/tmp");
+    std::fs::create_dir_all(&tmp).expect("harness: cannot create temporary directory");
+    let mut counter = 0u64;
+    let mut pair_events = 0u64;
+
+    let sets_of = |fmt: Fmt| -> &'static [u8] {
+        match fmt {
+            Fmt::Dimacs | Fmt::Nnf => &[0, 1],
+            Fmt::Aiger => &[0, 2],
+        }
+    };
+
+    for s in fixed_seeds() {
+        for &set in sets_of(s.fmt) {
+            let valid = s.valid_with.contains(&set);
+            // the input itself
+            log_parse(&mut out, &mut st, &mut ps, s.fmt, set, if valid { "valid" } else { "mut" }, &s.name,
+                      &s.bytes, s.hidden_roots, Some(&tmp));
+            // every truncation point
+            for cut in 0..s.bytes.len() {
+                counter += 1;
+                let t = if counter % load_every == 0 { Some(tmp.as_str()) } else { None };
+                log_parse(&mut out, &mut st, &mut ps, s.fmt, set, "trunc", &s.name, &s.bytes[..cut], s.hidden_roots, t);
+            }
+            // seeded byte mutations
+            for _ in 0..muts {
+                let m = mutate(&mut rng, &s.bytes);
+                counter += 1;
+                let t = if counter % load_every == 0 { Some(tmp.as_str()) } else { None };
+                log_parse(&mut out, &mut st, &mut ps, s.fmt, set, "mut", &s.name, &m, s.hidden_roots, t);
+            }
+        }
+    }
+
+    // random and-inverter graphs, serialised as aag and as aig
+    for k in 0..pairs {
+        let g = random_aig(&mut rng);
+        let aag = g.to_aag();
+        let aig = g.to_aig();
+        next_event(&mut out, &mut st);
+        let (ra, _) = parse_call(Fmt::Aiger, 0, &aag, true);
+        let (rb, pb) = parse_call(Fmt::Aiger, 0, &aig, true);
+        out.emit(json!({"ev":"aiger-pair","aag":ra,"aig":rb,"hex_aag":hex(&aag),"hex_aig":hex(&aig)}));
+        pair_events += 1;
+        if let Some(p) = &pb {
+            run_problem_simplify(&mut out, &mut st, "parsed", p, g.hidden_roots());
+        }
+        // the generated files are members of the format ...
+        let name = format!("gen{k}");
+        let t = if k % load_every == 0 { Some(tmp.as_str()) } else { None };
+        log_parse(&mut out, &mut st, &mut ps, Fmt::Aiger, 0, "valid", &name, &aag, g.hidden_roots(), t);
+        log_parse(&mut out, &mut st, &mut ps, Fmt::Aiger, 2, "valid", &name, &aig, g.hidden_roots(), None);
+        // ... and seeds for truncation / mutation
+        for _ in 0..gen_muts {
+            let (src, set) = if rng.chance(1, 2) { (&aag, 0) } else { (&aig, 2) };
+            let m = if rng.chance(1, 4) { src[..rng.below(src.len())].to_vec() } else { mutate(&mut rng, src) };
+            log_parse(&mut out, &mut st, &mut ps, Fmt::Aiger, set, "mut", &name, &m, g.hidden_roots(), None);
+        }
+    }
+
+    let _ = std::fs::remove_dir_all(&tmp);
+    out.finish();
+    write_summary(
+        &dir,
+        "parse-mutate",
+        &out,
+        json!({"rows": ps.cases + pair_events, "nontrivial": ps.distinct.len() + st.nontrivial.len(),
+               "parse_ok": ps.ok, "parse_err": ps.err, "parse_panic": ps.panic, "pairs": pair_events,
+               "simplify_cases": st.cases, "simplify_nontrivial": st.nontrivial.len(),
+               "simplify_err": st.err, "simplify_panic": st.panic}),
+    );
+}
+
+pub fn run(driver: &str, args: &Args) {
+    match driver {
+        "circuit-enum" => circuit_enum(args),
+        "circuit-random" => circuit_random(args),
+        "parse-mutate" => parse_mutate(args),
+        d => {
+            eprintln!("unknown driver {d}");
+            std::process::exit(2);
+        }
+    }
 }
